@@ -85,6 +85,7 @@ def nontrivial(hist) -> bool:
 
 
 VARIANTS = ["memerr_pre", "memerr_post", "int_pre", "int_post", "switch_pre", "switch_post", "duet_pre", "duet_post"]
+DUET2 = ["duet2_1", "duet2_2", "duet2_3"]   # thorough tier only
 
 
 def duet_case(rng, case, history, site, variant, stats, want_op=None):
@@ -266,8 +267,24 @@ def duet_case(rng, case, history, site, variant, stats, want_op=None):
     at = o if variant.endswith("_pre") or not after else after[0]
     before = sum(1 for x in hist2 if x["i"] < h["i"] and x.get("status") != "removed")
     grants = [[0, 0]] * before + [[0, 0], [1, 0]]
+    switches = [{"step": h["i"], "at": at}]
+    if variant.startswith("duet2"):
+        # two switches: the first client is stopped right BEFORE the write; the second one runs the same code up to
+        # right after its k-th write behind that site and is stopped there; the first runs to the end of its call;
+        # the second resumes. (Test-then-set of an ownership flag, double-checked initialisation: every schedule
+        # with a single switch is clean.)
+        hb = hist2[-1]
+        ob = next((o_ for o_, key in (hb.get("wsk") or []) if tuple(key) == site), None)
+        if hb.get("status") != "ok" or ob is None:
+            return None
+        after_b = [w for w in (hb.get("ws") or []) if w > ob]
+        k_ = int(variant[-1]) - 1
+        if len(after_b) <= k_:
+            return None
+        switches = [{"step": h["i"], "at": o}, {"step": hb["i"], "at": after_b[k_]}]
+        grants = [[0, 0]] * before + [[0, 0], [1, 0], [0, 0], [1, 0]]
     plan = {"exec": "preempt", "config": "directed:" + variant, "faults": [], "fp": [], "evict_mid": [],
-            "switch_at": [{"step": h["i"], "at": at}], "sched_seed": rng.getrandbits(48), "quantum_mean": 300,
+            "switch_at": switches, "sched_seed": rng.getrandbits(48), "quantum_mean": 300,
             "target_site": seam.site_str(site), "grants": grants}
     return case, hist2, plan
 
